@@ -71,6 +71,23 @@ func GenerateMatrix(r *lp.Rng, index int) *Design {
 			put.HTTP.Cookies = append(put.HTTP.Cookies, mp)
 		}
 	}
+	if loc == "body" && (index/4)%2 == 0 {
+		// a map whose elements are arrays (maps) of a user type that nothing else refers to
+		d := g.d
+		d.Types = append(d.Types,
+			&TypeDef{Name: "MxItem", Kind: "type", Att: &Att{Type: &Type{IsObject: true, Object: []*Field{
+				{Name: "id", Att: &Att{Type: &Type{Prim: "Int"}}}, {Name: "tag", Att: &Att{Type: &Type{Prim: "String"}}}}}}},
+			&TypeDef{Name: "MxTag", Kind: "type", Att: &Att{Type: &Type{IsObject: true, Object: []*Field{
+				{Name: "label", Att: &Att{Type: &Type{Prim: "String"}}}}}}})
+		str := func() *Att { return &Att{Type: &Type{Prim: "String"}} }
+		payload.Type.Object = append(payload.Type.Object,
+			&Field{Name: "m_items", Att: &Att{Type: &Type{MapKey: str(), MapElem: &Att{Type: &Type{Array: &Att{Type: &Type{Ref: "MxItem"}}}}}}},
+			&Field{Name: "m_tags", Att: &Att{Type: &Type{MapKey: str(), MapElem: &Att{Type: &Type{MapKey: str(), MapElem: &Att{Type: &Type{Ref: "MxTag"}}}}}}})
+	}
+	if index%12 == 7 {
+		// file servers: two single files whose request paths end in the same element, and a directory
+		s.Files = [][]string{{"/v2/swagger.json", "gen/http/openapi.json"}, {"/v3/swagger.json", "gen/http/openapi3.json"}, {"/static/{*path}", "public"}}
+	}
 	if loc == "body" {
 		// collections with default values (every mode: optional with default, required with default)
 		tags := &Att{Type: &Type{Array: &Att{Type: &Type{Prim: "String"}}}, Default: []any{"new", "unsorted"}, HasDef: true}
